@@ -80,6 +80,8 @@ type Stats struct {
 	MapRanges    int            `json:"map_ranges"`
 	MapRangeKeys map[string]int `json:"map_range_key_types"`
 	Stamps       int            `json:"stamps"`
+	ChanOps      int            `json:"chan_ops"`
+	Selects      int            `json:"selects"`
 	Yields       int            `json:"yields"`
 	Inits        int            `json:"inits"`
 	ReinitVars   int            `json:"reinit_vars"`
@@ -312,8 +314,76 @@ func instrumentPackage(o Options, p *packages.Package, st *Stats, overlay map[st
 
 		// 2..5: walk
 		var curFunc string
+		skip := map[ast.Node]bool{} // channel operations that must stay as they are (select communications)
+		recv2 := map[ast.Node]bool{}
+		selN := 0
+		isChan := func(e ast.Expr) bool {
+			tv := p.TypesInfo.TypeOf(e)
+			if tv == nil {
+				return false
+			}
+			_, ok := tv.Underlying().(*types.Chan)
+			return ok
+		}
 		ast.Inspect(fc.file, func(n ast.Node) bool {
 			switch n := n.(type) {
+			case *ast.SelectStmt:
+				hasDefault := false
+				for _, c := range n.Body.List {
+					cc := c.(*ast.CommClause)
+					if cc.Comm == nil {
+						hasDefault = true
+						continue
+					}
+					skip[cc.Comm] = true
+					switch cm := cc.Comm.(type) {
+					case *ast.ExprStmt:
+						skip[ast.Unparen(cm.X)] = true
+					case *ast.AssignStmt:
+						if len(cm.Rhs) == 1 {
+							skip[ast.Unparen(cm.Rhs[0])] = true
+						}
+					}
+				}
+				st.Selects++
+				fc.needRT = true
+				switch {
+				case len(n.Body.List) == 0:
+					fc.replace(n.Pos(), n.End(), "verifsimrt.BlockForever()")
+				case !hasDefault:
+					selN++
+					fc.insert(n.Select, fmt.Sprintf("var verifSelCnt%d int; verifSel%d: ", selN, selN), 0)
+					fc.insert(n.Body.Rbrace, fmt.Sprintf("default: verifsimrt.SelectRetry(&verifSelCnt%d); goto verifSel%d\n", selN, selN), 0)
+				default:
+					fc.insert(n.Select, "verifsimrt.Point(\"select\", 0); ", 0)
+				}
+			case *ast.SendStmt:
+				if skip[n] {
+					return true
+				}
+				fc.insert(n.Chan.Pos(), "verifsimrt.Send(", 2)
+				fc.replace(n.Chan.End(), n.Value.Pos(), ", ")
+				fc.insert(n.Value.End(), ")", -2)
+				fc.needRT = true
+				st.ChanOps++
+			case *ast.ValueSpec:
+				if len(n.Values) == 1 && len(n.Names) == 2 {
+					if u, ok := ast.Unparen(n.Values[0]).(*ast.UnaryExpr); ok && u.Op == token.ARROW {
+						recv2[u] = true
+					}
+				}
+			case *ast.UnaryExpr:
+				if n.Op != token.ARROW || skip[n] {
+					return true
+				}
+				fn := "verifsimrt.Recv("
+				if recv2[n] {
+					fn = "verifsimrt.Recv2("
+				}
+				fc.replace(n.OpPos, n.X.Pos(), fn)
+				fc.insert(n.X.End(), ")", -2)
+				fc.needRT = true
+				st.ChanOps++
 			case *ast.FuncDecl:
 				curFunc = n.Name.Name
 				if n.Body != nil {
@@ -331,6 +401,12 @@ func instrumentPackage(o Options, p *packages.Package, st *Stats, overlay map[st
 				if tv == nil {
 					return true
 				}
+				if isChan(n.X) {
+					fc.rewriteChanRange(n)
+					fc.needRT = true
+					st.ChanOps++
+					return true
+				}
 				mt, ok := tv.Underlying().(*types.Map)
 				if !ok {
 					return true
@@ -341,6 +417,11 @@ func instrumentPackage(o Options, p *packages.Package, st *Stats, overlay map[st
 				st.MapRanges++
 				st.MapRangeKeys[types.TypeString(mt.Key(), func(p *types.Package) string { return p.Name() })]++
 			case *ast.AssignStmt:
+				if len(n.Rhs) == 1 && len(n.Lhs) == 2 {
+					if u, ok := ast.Unparen(n.Rhs[0]).(*ast.UnaryExpr); ok && u.Op == token.ARROW {
+						recv2[u] = true
+					}
+				}
 				for _, lhs := range n.Lhs {
 					fc.maybeStamp(p, lhs, st)
 				}
@@ -494,6 +575,21 @@ func (fc *fileCtx) rewriteRange(n *ast.RangeStmt, site uint32) {
 	}
 	pro = append(pro, "if !verifOK { continue }")
 	hdr := fmt.Sprintf("for _, verifE := range verifsimrt.MapIter(%s, %d) { %s;", fc.text(n.X), site, strings.Join(pro, "; "))
+	fc.replace(n.For, n.Body.Lbrace+1, hdr)
+}
+
+func (fc *fileCtx) rewriteChanRange(n *ast.RangeStmt) {
+	recv := "_, verifOK := verifsimrt.Recv2(verifCh)"
+	if n.Key != nil {
+		if id, ok := n.Key.(*ast.Ident); !ok || id.Name != "_" {
+			if n.Tok == token.ASSIGN {
+				recv = fmt.Sprintf("var verifOK bool; %s, verifOK = verifsimrt.Recv2(verifCh)", fc.text(n.Key))
+			} else {
+				recv = fmt.Sprintf("%s, verifOK := verifsimrt.Recv2(verifCh)", fc.text(n.Key))
+			}
+		}
+	}
+	hdr := fmt.Sprintf("for verifCh := (%s); ; { %s; if !verifOK { break };", fc.text(n.X), recv)
 	fc.replace(n.For, n.Body.Lbrace+1, hdr)
 }
 
